@@ -178,6 +178,20 @@ theorem C13_noninterference_partial (sys : Sys) (fuel : Nat) (h : Heap) (s : Id)
   exact ⟨⟨(observe_region (x := s) rfl ho.2.1 ho.1).symm, ho.2.2⟩,
     ⟨(observe_region (x := c) rfl hk.2.1 hk.1).symm, hk.2.2⟩⟩
 
+/- The full statements (DESIGN Appendix D), kept visible. They are NOT theorems: both are false of the code
+   and of the model for a simulation with a memory configuration (`C13_disk_shared_counterexample` below);
+   what is missing is exactly the hypothesis `hmem : MemoryBacked h s`.
+
+theorem C13_footprints_disjoint (h : Heap) (s : Id) (tr : Bool) (h' : Heap) (c : Id)
+    (hwf : WellFormed h s) (hc : cloneSim s tr h = (.ok c, h')) (n m : Nat) :
+    ∀ p ∈ reach h' n [c], ∀ q ∈ reach h' m [s], p ≠ q
+
+theorem C13_noninterference (sys : Sys) (fuel : Nat) (h : Heap) (s : Id) (tr : Bool) (h' : Heap) (c : Id)
+    (hwf : WellFormed h s) (hc : cloneSim s tr h = (.ok c, h')) (ops : List (Side × Op)) :
+    (observe s (runOps sys fuel s c ops h')).1 = (observe s (runSide sys fuel s (ops.filterMap (onSide .orig)) h')).1
+    ∧ (observe c (runOps sys fuel s c ops h')).1 = (observe c (runSide sys fuel c (ops.filterMap (onSide .clone)) h')).1
+-/
+
 example : (observe exC (runOps exSys 40 exS exC exOps exH')).1
     ≠ (observe exS (runOps exSys 40 exS exC exOps exH')).1 := by decide +kernel
 
